@@ -18,6 +18,9 @@ typedef struct {
 	ZSTD_CStream *cstrm;
 	ZSTD_DStream *dstrm;
 	bool compress;
+
+	/* decompression only: last call left us in the middle of a frame */
+	bool mid_frame;
 } xfrm_zstd_t;
 
 static const ZSTD_EndDirective zstd_action[] = {
@@ -60,6 +63,9 @@ static int process_data(xfrm_stream_t *stream, const void *in,
 		if (ZSTD_isError(ret))
 			return XFRM_STREAM_ERROR;
 
+		if (!zstd->compress)
+			zstd->mid_frame = (ret != 0);
+
 		in = (const char *)in + in_desc.pos;
 		in_size -= in_desc.pos;
 		*in_read += in_desc.pos;
@@ -70,8 +76,12 @@ static int process_data(xfrm_stream_t *stream, const void *in,
 	}
 
 	if (flush_mode != XFRM_STREAM_FLUSH_NONE) {
-		if (in_size == 0)
+		if (in_size == 0) {
+			/* out of input while a frame is still incomplete */
+			if (!zstd->compress && zstd->mid_frame)
+				return XFRM_STREAM_ERROR;
 			return XFRM_STREAM_END;
+		}
 	}
 
 	if (in_size > 0 && out_size == 0)
